@@ -20,12 +20,12 @@ struct nv_range { int64_t b, e; };                            /* tensor_range_t 
 struct nv_dims4 { int64_t d0; };                              /* tensor4d_dims_t: the leading dimension */
 struct nv_lany { uint64_t id; uint64_t w, b; };               /* std::any: 0 = empty; else holds a linear::result_t with these weights / bias */
 struct nv_mlresult { int64_t trials, folds, optimum; };       /* ml::result_t */
-struct nv_lresult { struct nv_lt m_bias; struct nv_lt m_weights; struct nv_opaque m_statistics; };   /* linear::result_t */
+struct nv_lresult { struct nv_lt m_bias; struct nv_lt m_weights; struct nv_lt m_statistics; };   /* linear::result_t */
 struct nv_cb_ret { struct nv_lt _0; struct nv_lt _1; struct nv_lresult _2; };   /* (train values, valid values, result) */
 struct nv_linear { struct nv_lt m_bias; struct nv_lt m_weights; };             /* linear_t */
 struct nv_fiter { uint64_t by; int32_t scaling; uint64_t id; };                /* flatten_iterator_t: samples, scaling, identity */
 struct nv_lfunction { uint64_t on, params, it; int32_t scaling; };             /* linear::function_t */
-struct nv_lstate { uint64_t id, on, params, extra, it; int32_t scaling; };     /* solver_state_t */
+struct nv_lstate { uint64_t id, on, params, extra, it; int32_t scaling; int64_t m_fcalls, m_gcalls; int32_t m_status; };     /* solver_state_t */
 struct nv_lstats { uint64_t it; int32_t kind; };                               /* scalar_stats_t: of which iterator, 1 flatten | 2 targets */
 struct nv_lx { uint64_t state, on, params, extra, it; int32_t scaling; };      /* vector_t: x0 (state 0) or the solution of a state */
 #define NV_PART_BIAS 1
@@ -92,8 +92,22 @@ static void nv_upscale(const struct nv_lstats* fs, int32_t fscaling, const struc
   __CPROVER_assume(weights.t->up < 1000 && bias.t->up < 1000 && nv_upscaled < 1000);
   weights.t->up = weights.t->up + 1; bias.t->up = bias.t->up + 1; weights.t->id = nv_fresh_id(); bias.t->id = nv_fresh_id(); nv_upscaled = nv_upscaled + 1;
 }
+/* linear::result_t{bias, weights, state}: the REAL constructor (src/linear/result.cpp), extracted */
+void linear_result_ctor(struct nv_lresult* self, struct nv_lt bias, struct nv_lt weights, const struct nv_lstate* nv_unnamed2);
 static struct nv_lresult nv_lresult_make(struct nv_lt bias, struct nv_lt weights, const struct nv_lstate* state)
-{ struct nv_lresult r; r.m_bias = bias; r.m_weights = weights; return r; }
+{ struct nv_lresult r; linear_result_ctor(&r, bias, weights, state); return r; }
+double nv_lstat_sink;
+static struct nv_lt nv_lt_make1(int64_t n) { struct nv_lt t = nv_lt_zero(); t.rows = n; t.cols = 1; t.id = nv_fresh_id(); return t; }
+static double* nv_lt_at(struct nv_lt* t, int64_t i)
+{ __CPROVER_assert(0 <= i && i < t->rows, "linear::result_t: statistics access inside the 3 allocated slots (C16)"); return &nv_lstat_sink; }
+static int64_t nv_lstate_calls(const struct nv_lstate* s) { return nv_nondet_int64_t(); }
+static int32_t nv_lstate_status(const struct nv_lstate* s) { return s->m_status; }
+#define NV_SAME_TAGS(a, b) ((a).id == (b).id && (a).part == (b).part && (a).state == (b).state && (a).on == (b).on && (a).params == (b).params && (a).extra == (b).extra && (a).it == (b).it && (a).scaling == (b).scaling && (a).up == (b).up && (a).rows == (b).rows && (a).cols == (b).cols)
+/* the result holds the given bias as its bias and the given weights as its weights; one statistics slot per enumerator of result_t::stats */
+#define NV_CONTRACT_linear_result_ctor \
+__CPROVER_requires(NV_LT_FRESH(self) && NV_LT_FRESH(NV_ARG_linear_result_ctor_3)) \
+__CPROVER_assigns(*self, nv_id_counter, nv_lstat_sink) \
+__CPROVER_ensures(NV_SAME_TAGS(self->m_bias, NV_ARG_linear_result_ctor_1) && NV_SAME_TAGS(self->m_weights, NV_ARG_linear_result_ctor_2) && self->m_statistics.rows == 3)
 
 /* ---- ml::tune / ml::result_t (C13) */
 int64_t nv_opt_trial; uint64_t nv_params_id0;
@@ -128,7 +142,7 @@ static void nv_store_final(struct nv_mlresult* r, struct nv_lt values, struct nv
 /* ::fit(model, dataset, samples, loss, solver, params, logger, extra) */
 #define NV_CONTRACT_linear_fit_inner \
 __CPROVER_requires(NV_LT_FRESH(NV_ARG_linear_fit_inner_0) && NV_LT_FRESH(NV_ARG_linear_fit_inner_2) && NV_LT_FRESH(NV_ARG_linear_fit_inner_7)) \
-__CPROVER_assigns(nv_id_counter, nv_minimized, nv_lf_state, nv_upscaled) \
+__CPROVER_assigns(nv_id_counter, nv_minimized, nv_lf_state, nv_upscaled, nv_lstat_sink) \
 __CPROVER_ensures(nv_minimized == __CPROVER_old(nv_minimized) + 1 && nv_upscaled == __CPROVER_old(nv_upscaled) + 1) \
 __CPROVER_ensures(NV_FITTED(__CPROVER_return_value.m_weights, NV_PART_WEIGHTS, NV_ARG_linear_fit_inner_2->id, NV_ARG_linear_fit_inner_5.id)) \
 __CPROVER_ensures(NV_FITTED(__CPROVER_return_value.m_bias, NV_PART_BIAS, NV_ARG_linear_fit_inner_2->id, NV_ARG_linear_fit_inner_5.id)) \
@@ -215,7 +229,7 @@ __CPROVER_ensures(NV_ARG_linear_evaluate_1->n > 0 ==> (__CPROVER_return_value.by
 #define NV_CONTRACT_linear_fit_callback \
 __CPROVER_requires(NV_LT_FRESH(self) && NV_LT_FRESH(NV_ARG_linear_fit_callback_1) && NV_LT_FRESH(NV_ARG_linear_fit_callback_2) && NV_LT_FRESH(NV_ARG_linear_fit_callback_4) && NV_LT_FRESH(batch)) \
 __CPROVER_requires(NV_ARG_linear_fit_callback_1->id == NV_ID_TRAIN && NV_ARG_linear_fit_callback_2->id == NV_ID_VALID && 0 <= NV_ARG_linear_fit_callback_1->n && NV_ARG_linear_fit_callback_1->n <= 1000000000 && 0 <= NV_ARG_linear_fit_callback_2->n && NV_ARG_linear_fit_callback_2->n <= 1000000000) \
-__CPROVER_assigns(nv_id_counter, nv_minimized, nv_lf_state, nv_upscaled, nv_e_looped, nv_e_pred, nv_e_pred_w, nv_e_pred_b, nv_e_pred_by, nv_e_pred_out, nv_e_pred_pos, __CPROVER_object_whole(nv_e_cell), __CPROVER_object_whole(nv_e_kind), __CPROVER_object_whole(nv_e_ok)) \
+__CPROVER_assigns(nv_id_counter, nv_minimized, nv_lf_state, nv_upscaled, nv_lstat_sink, nv_e_looped, nv_e_pred, nv_e_pred_w, nv_e_pred_b, nv_e_pred_by, nv_e_pred_out, nv_e_pred_pos, __CPROVER_object_whole(nv_e_cell), __CPROVER_object_whole(nv_e_kind), __CPROVER_object_whole(nv_e_ok)) \
 /* exactly one model is fitted in the task: on the fold's TRAINING samples, with the trial's hyper-parameters */ \
 __CPROVER_ensures(nv_minimized == __CPROVER_old(nv_minimized) + 1 && nv_upscaled == __CPROVER_old(nv_upscaled) + 1) \
 __CPROVER_ensures(NV_FITTED(NV_CB_RET._2.m_weights, NV_PART_WEIGHTS, NV_ID_TRAIN, NV_ARG_linear_fit_callback_3.id) && NV_FITTED(NV_CB_RET._2.m_bias, NV_PART_BIAS, NV_ID_TRAIN, NV_ARG_linear_fit_callback_3.id)) \
@@ -230,7 +244,7 @@ __CPROVER_ensures(nv_e_looped == __CPROVER_old(nv_e_looped) + 2)
 #define NV_CONTRACT_linear_model_fit \
 __CPROVER_requires(NV_LT_FRESH(self) && NV_LT_FRESH(NV_ARG_linear_model_fit_2) && NV_ARG_linear_model_fit_2->id == NV_ID_FIT && 0 <= NV_ARG_linear_model_fit_2->n && NV_ARG_linear_model_fit_2->n <= 1000000000 && nv_params_id0 <= 1000000000) \
 __CPROVER_assigns(*self, nv_thrown, nv_stored, nv_stored_values, nv_stored_extra) \
-__CPROVER_assigns(nv_id_counter, nv_minimized, nv_lf_state, nv_upscaled, nv_e_looped, nv_e_pred, nv_e_pred_w, nv_e_pred_b, nv_e_pred_by, nv_e_pred_out, nv_e_pred_pos, __CPROVER_object_whole(nv_e_cell), __CPROVER_object_whole(nv_e_kind), __CPROVER_object_whole(nv_e_ok)) \
+__CPROVER_assigns(nv_id_counter, nv_minimized, nv_lf_state, nv_upscaled, nv_lstat_sink, nv_e_looped, nv_e_pred, nv_e_pred_w, nv_e_pred_b, nv_e_pred_by, nv_e_pred_out, nv_e_pred_pos, __CPROVER_object_whole(nv_e_cell), __CPROVER_object_whole(nv_e_kind), __CPROVER_object_whole(nv_e_ok)) \
 /* exactly one refit, after tuning: optimum trial's hyper-parameters, ALL given samples; stored up-scaled once */ \
 __CPROVER_ensures(nv_thrown || (nv_minimized == __CPROVER_old(nv_minimized) + 1 && nv_upscaled == __CPROVER_old(nv_upscaled) + 1)) \
 __CPROVER_ensures(nv_thrown || (NV_FITTED(self->m_weights, NV_PART_WEIGHTS, NV_ID_FIT, nv_params_id0 + (uint64_t)nv_opt_trial) && NV_FITTED(self->m_bias, NV_PART_BIAS, NV_ID_FIT, nv_params_id0 + (uint64_t)nv_opt_trial))) \
